@@ -350,7 +350,9 @@ def main(tier, seed, t0):
         for la in LEVELS_C: items.append(('unary', (op, la)))
     for name in ('%', '//', '%%', '/!'):
         for la in LEVELS_C:
-            for lb in LEVELS_C: items.append(('builtin', (name, la, lb)))
+            for lb in LEVELS_C:
+                if la.startswith('Int') and lb.startswith('Int'): continue      # integer x integer: decided under C06 (same closures, integer oracle)
+                items.append(('builtin', (name, la, lb)))
     rnd.shuffle(items)
     merged, per = pmap(run_shape, items, tier)
     return finish(PROP, tier, seed, merged, t0, th=th,
